@@ -53,6 +53,10 @@ def mutations(rng, m, budget):
     for tgt in (L, L - 1, L + 1, L - 2, 12, 13, 0x3fff, L + 100):
         if 0 <= tgt <= 0x3fff:
             out.append(m[:12] + bytes([0xc0 | (tgt >> 8), tgt & 0xff]) + m[-4:])
+    # chains of backward pointers around the jump budget; now and then a very long one
+    out += pointer_chains(rng, m, (9, 10, 11, 12) if rng.random() < 0.3 else ())
+    if rng.random() < 0.03:
+        out += pointer_chains(rng, m, (60, 2000, 8100)) + pointer_cycle(rng, m, rng.choice([5, 100, 8100]))
     # a pointer as the very last two bytes, and as the last byte only
     out.append(m[:12] + b"\x01a" + bytes([0xc0, L & 0xff])[:2])
     out.append(m[:12] + b"\x01a\xc0")
@@ -73,6 +77,42 @@ def mutations(rng, m, budget):
         if rng.random() < 0.3:
             mm = mm[:rng.randrange(max(1, L - 20), L + 1)]
         out.append(bytes(mm))
+    return out
+
+
+def pointer_cycle(rng, m, n):
+    """as pointer_chains, but the chain is closed into a cycle by ONE forward pointer (the first link points to the last): only forward jumps are
+    what a careless budget would count, so the whole chain is walked once per unit of budget"""
+    tail = m[12:][-4:] if len(m) >= 16 else b"\x00\x0a\x00\x01"
+    a = 12 + 2 + 4
+    last = a + 2 * n                       # offset of the last link
+    if last > 0x3fff:
+        return []
+    chain = bytes([0xc0 | (last >> 8), last & 0xff])      # link 0 (at a): forward to the last link
+    for i in range(1, n + 1):
+        tgt = a + 2 * (i - 1)
+        chain += bytes([0xc0 | (tgt >> 8), tgt & 0xff])  # link i (at a+2i): back to link i-1
+    return [m[:12] + bytes([0xc0 | (last >> 8), last & 0xff]) + tail + chain]
+
+
+def pointer_chains(rng, m, lengths):
+    """the question name is a compression pointer to the END of a chain of n backward pointers (each points to the one before it, the first to a
+    real name): every jump goes strictly backwards, so only a jump budget - not a "no forward pointers" rule - bounds the work"""
+    out = []
+    for n in lengths:
+        tail = m[12:][-4:] if len(m) >= 16 else b"\x00\x0a\x00\x01"
+        a = 12 + 2 + 4                                  # where the real name sits
+        body = b"\x03abc\x01t\x00"
+        chain, tgt = b"", a
+        for i in range(n):
+            off = a + len(body) + 2 * i
+            if tgt > 0x3fff:
+                break
+            chain += bytes([0xc0 | (tgt >> 8), tgt & 0xff])
+            tgt = off
+        if tgt > 0x3fff:
+            continue
+        out.append(m[:12] + bytes([0xc0 | (tgt >> 8), tgt & 0xff]) + tail + body + chain)
     return out
 
 
